@@ -5,8 +5,12 @@ import os
 
 VERIF = os.path.dirname(os.path.dirname(os.path.abspath(__file__)))
 
-SRC = (" Decision-logic cores of the kernels are additionally TRANSLATED from the current source on every run (harness/kernels.py → Model/Generated/Kernels*.lean) and proved equal "
-       "to the model for all inputs (Properties/Src*.lean), so a changed kernel breaks a proof obligation.")
+SRC = (" The Numba kernels are additionally TRANSLATED from the current source on every run — whole kernels with their loops, array stores and calls (harness/kernels2.py → "
+       "Model/Generated/Full*.lean) and the decision-logic cores of the float-bearing ones (harness/kernels.py → Kernels*.lean) — and proved equal to the hand-written model for all "
+       "inputs (Properties/Full*.lean, Properties/Src*.lean), so a changed kernel breaks a proof obligation.")
+
+SCHEMA = (" The class-level code (constructor validation, what save() writes and load() copies back, the shared-memory byte layouts of __init__ and attach_existing_shm) is TRANSLATED "
+          "from the current source on every run (harness/schema.py → Model/Generated/Schema.lean) and proved to be the modelled one for all shapes (Properties/SrcSchema.lean).")
 
 TB = ("Trusted: Lean 4.33 kernel; axioms propext/Classical.choice/Quot.sound only (audited per theorem on every run; no sorry/native_decide/bv_decide); "
       "the hand-written model is tied to /repo by the differential correspondence run of this check (harness, driver glue, translator); "
@@ -108,8 +112,8 @@ CHECKS.update({
         text="C10_roundtrip proves for all five classes that everything a constructor accepted is accepted again on load and that the loaded object equals the saved one (class, every parameter, "
              "tables, bookkeeping), default_phi_valid covers the width-1 heavy-hitter case, C10_dispatch/C10_reject prove the module-level dispatch and TypeError of the other count-min loaders, "
              "C10_continue that any further history gives the same result. The run compares real save/load (shared_memory on/off), every public attribute, continued use under placed draws, "
-             "merge with the original and a second generation, and the constructor validation grid with the model.",
-        tech="Lean 4 proof (round-trip over a model of constructors/save/load incl. validation) + differential correspondence",
+             "merge with the original and a second generation, and the constructor validation grid with the model." + SCHEMA,
+        tech="Lean 4 proof (round-trip over a model of constructors/save/load incl. validation; save/load schema translated from source) + differential correspondence",
         ref="§4 C10"),
     "C12": dict(
         text="lin_add_mult / hh_add_mult (v ≤ 2^32-1) / log_add_mult (same draw stream) / hll_add_mult prove add(key, v) = v single adds as STATE equalities for every state; logCounter_mult, "
@@ -133,8 +137,8 @@ CHECKS.update({
     "C16": dict(
         text="PARTIAL. Proved: the layouts computed by __init__ and by attach_existing_shm agree for every shape (cms_layouts_agree, hh_layouts_agree), the segments tile the block exactly with a "
              "16-byte bookkeeping tail and are pairwise disjoint (…_tiling, chained_disjoint), little-endian round trip (decode_encode). The run compares real array offsets with the model and the "
-             "state seen through owner/views with an in-memory sketch under interleaved operations, and checks /dev/shm on deletion.",
-        tech="Lean 4 proof of layout agreement/tiling + differential correspondence across views",
+             "state seen through owner/views with an in-memory sketch under interleaved operations (owners built by the constructor AND by load(shared_memory=True)), and checks /dev/shm on deletion." + SCHEMA,
+        tech="Lean 4 proof of layout agreement/tiling (layouts translated from source) + differential correspondence across views",
         note=TB + " NOT PROVED (runtime): mapping coherence between attached views, unlink semantics of POSIX shared memory.",
         ref="§4 C16"),
     "C17": dict(
@@ -147,8 +151,11 @@ CHECKS.update({
     "C20": dict(
         text="PARTIAL (container modelled). C20_prefix/C20_prefix_classes prove that for a file whose end-of-central-directory signature occurs exactly once, 22 bytes before the end (uniqueSig, "
              "evaluated on every file), EVERY strict prefix fails to open in the model of np.load + zipfile._EndRecData (EOFError / ValueError / BadZipFile), and C20_complete that the whole file "
-             "opens. The run loads every prefix of real saved files through all loaders and compares the outcome class with the model prefix by prefix.",
-        tech="Lean 4 proof (every strict prefix lacks a complete end record) + exhaustive prefix correspondence",
+             "opens. C20_needs_uniqueSig proves the hypothesis necessary, and the run exhibits it on the real code: array data is stored uncompressed and 32-bit counters are caller-chosen, so a file "
+             "written by save() can embed a complete sketch file, whose end record zipfile finds in every prefix that contains it — a GENUINE DEFECT of the unchanged tree, listed in known_findings.json "
+             "(C20:embedded-complete-archive, printed as KNOWN-FINDING). The run loads every prefix of ordinary real saved files through all loaders and compares the outcome class with the model prefix "
+             "by prefix, and loads the prefixes of crafted files: an embedded archive that lacks a required member must make the loader raise (a loader that returns is a new VIOLATION)." + SCHEMA,
+        tech="Lean 4 proof (every strict prefix lacks a complete end record; hypothesis proved necessary) + exhaustive prefix correspondence incl. crafted embedded archives",
         note=TB + " np.load/zipfile behaviour is modelled from the installed sources.",
         ref="§4 C20"),
 })
